@@ -4,8 +4,85 @@
 // tag `verif`, contains no code.
 package ignore
 
+// ---- C07 / C15: @ignore comments -----------------------------------------------------------------------------------
+//@ func IgnoreAnnotation.GetCodes
+//@   props C07 C10
+//@   ensures result == a.Codes
+//@   assigns nothing
+//@ func IgnoreAnnotation.GetStartPos
+//@   props C07 C10
+//@   ensures result == a.StartPos
+//@   assigns nothing
+//@ func IgnoreAnnotation.GetEndPos
+//@   props C07 C10
+//@   ensures result == a.EndPos
+//@   assigns nothing
+
+// the codes of an @ignore line: the comma list captured by the expression, trimmed, empty items dropped, upper-cased
+//@ macro func ignCodesOf(text string) string = strings.TrimSpace(reGroup(ignoreRegex, text, 1))
+//@ func parseIgnoreAnnotation
+//@   props C07 C15 C10
+//@   fresh
+//@   ensures result != nil ==> reMatches(ignoreRegex, commentText) && len(result.Codes) > 0 && listHas(ignCodesOf(commentText), true, result.Codes[0])
+//@   ensures result == nil ==> !reMatches(ignoreRegex, commentText) || (forall x string :: !listHas(ignCodesOf(commentText), true, x))
+//@   ensures result != nil ==> result.StartPos == startPos && result.EndPos == endPos && (forall x string :: contains(result.Codes, x) <==> listHas(ignCodesOf(commentText), true, x))
+//@   assigns nothing
+//@   loop 1 invariant forall x string :: contains(codes, x) ==> (exists k int :: 0 <= k && k < $i && strings.TrimSpace(parts[k]) != "" && x == strings.ToUpper(strings.TrimSpace(parts[k])))
+//@   loop 1 invariant forall k int :: 0 <= k && k < $i && strings.TrimSpace(parts[k]) != "" ==> contains(codes, strings.ToUpper(strings.TrimSpace(parts[k])))
+//@   loop 1 invariant forall j int :: 0 <= j && j < len(codes) ==> (exists k int :: 0 <= k && k < $i && strings.TrimSpace(parts[k]) != "" && codes[j] == strings.ToUpper(strings.TrimSpace(parts[k])))
+
+// Stand-alone comment: the scope ends at the end of the declaration it precedes, or at the END of a node of the
+// enclosing declaration that starts after the comment (0 if there is none).
+//@ func findNextNodeAfterComment
+//@   props C07 C10
+//@   ensures result == 0 || (exists d int :: 0 <= d && d < len(file.Decls) && file.Decls[d].End() > commentPos && ((commentPos < file.Decls[d].Pos() && result == file.Decls[d].End()) || (file.Decls[d].Pos() <= commentPos && (exists n ast.Node :: n != nil && inspIn(n, file.Decls[d]) && n.Pos() > commentPos && result == n.End()))))
+//@   assigns nothing
+//@   at call ast.Inspect#1 invariant nextEnd == 0 || (exists n ast.Node :: n != nil && inspIn(n, decl) && n.Pos() > commentPos && nextEnd == n.End())
+
+// Inline comment: some node of the enclosing declaration starts before the comment and ends on the comment's line (or the
+// previous top-level declaration ends on that line); the scope is the comment's line up to the end of the comment.
+//@ func findInlineNode
+//@   props C07 C10
+//@   requires fset != nil
+//@   ensures !found ==> start == 0 && end == 0
+//@   ensures found ==> fset.File(comment.Pos()) != nil && start == fset.File(comment.Pos()).LineStart(fset.Position(comment.Pos()).Line) && end == comment.End()
+//@   ensures found ==> (exists d int :: 0 <= d && d < len(file.Decls) && ((file.Decls[d].End() <= comment.Pos() && fset.Position(file.Decls[d].End()).Line == fset.Position(comment.Pos()).Line) || (exists n ast.Node :: n != nil && inspIn(n, file.Decls[d]) && n.Pos() < comment.Pos() && fset.Position(n.End()).Line == fset.Position(comment.Pos()).Line)))
+//@   assigns nothing
+//@   at call ast.Inspect#1 invariant hasCodeOnLine ==> (exists n ast.Node :: n != nil && inspIn(n, decl) && n.Pos() < commentPos && fset.Position(n.End()).Line == commentLine)
+
+// Pre-filters never hide a match (ASSUMED here; the first is discharged as language inclusion by the check of C15,
+// obligation relang/ignore.ignoreRegex/prefilter; the second is the ahocorasick contract for the dictionary {"@ignore"}).
+//@ axiom ign_prefilter_regex: forall s string {reMatches(ignoreRegex, s)} :: reMatches(ignoreRegex, s) ==> strings.Contains(s, "@ignore")
+//@ axiom ign_prefilter_matcher: forall s string {ignoreMatcher.Contains(bytes(s))} :: ignoreMatcher.Contains(bytes(s)) == strings.Contains(s, "@ignore")
+
+//@ axiom ignoreMatcher_built: ignoreMatcher != nil
+
+// an @ignore line with at least one code
+//@ macro func isIgnoreLine(text string) bool = reMatches(ignoreRegex, text) && (exists x string :: listHas(ignCodesOf(text), true, x))
+// the scope [lo, hi] the reader gives comment cm of file f: the whole file before the package clause; the comment's own line
+// when it trails code; otherwise from the comment to the end of the declaration / node found after it (or of the comment)
+//@ pure func scopeOK(pass *analysis.Pass, f *ast.File, cm *ast.Comment, lo token.Pos, hi token.Pos) bool = (cm.Pos() < f.Package && lo == cm.Pos() && hi == f.End()) || (cm.Pos() >= f.Package && pass.Fset.File(cm.Pos()) != nil && lo == pass.Fset.File(cm.Pos()).LineStart(pass.Fset.Position(cm.Pos()).Line) && hi == cm.End()) || (cm.Pos() >= f.Package && lo == cm.Pos() && (hi == cm.End() || (exists d int :: 0 <= d && d < len(f.Decls) && f.Decls[d].End() > cm.Pos() && ((cm.Pos() < f.Decls[d].Pos() && hi == f.Decls[d].End()) || (f.Decls[d].Pos() <= cm.Pos() && (exists n ast.Node :: n != nil && inspIn(n, f.Decls[d]) && n.Pos() > cm.Pos() && hi == n.End()))))))
+// marker m was produced from comment cm of file f
+//@ pure func markerFrom(pass *analysis.Pass, f *ast.File, cm *ast.Comment, m util.IgnoreMarker) bool = isIgnoreLine(cm.Text) && (forall x string :: contains(m.Codes, x) <==> listHas(ignCodesOf(cm.Text), true, x)) && scopeOK(pass, f, cm, m.StartPos, m.EndPos)
+
+// C07/C08/C14: the suppression set of a package is well-formed (C16's representation invariant), its global tokens are
+// exactly the configured exclude-checks, and scoped markers are only ever added with a valid start position.
+// (The correspondence "one marker per @ignore line, with the scope of its placement" is carried by the contracts of
+// parseIgnoreAnnotation / findInlineNode / findNextNodeAfterComment and by the code structure; a quantified statement of
+// it over all comments (markerFrom / scopeOK below) did not discharge robustly and is NOT claimed - see DESIGN.md.)
 //@ func ReadIgnoreAnnotations
 //@   props C07 C08 C14 C10
-//@   requires cfg != nil
+//@   requires cfg != nil && pass.Fset != nil
 //@   fresh
-//@   ensures result != nil && isetInv(result)
+//@   assigns nothing
+//@   ensures result != nil && result.Initialized == (len(cfg.ExcludeChecks) > 0 || len(result.Markers) > 0) && isetInv(result)
+//@   ensures forall t string :: contains(result.moduleIgnores, t) <==> contains(cfg.ExcludeChecks, t)
+//@   loop 1 frame
+//@   loop 2 frame
+//@   loop 3 frame
+//@   loop 1 invariant ignoreSet != nil && fresh(ignoreSet) && isetInv(ignoreSet) && ignoreSet.Initialized == (len(cfg.ExcludeChecks) > 0 || len(ignoreSet.Markers) > 0) && (ignoreSet.CodeIndex != nil ==> fresh(ignoreSet.CodeIndex))
+//@   loop 1 invariant forall t string :: contains(ignoreSet.moduleIgnores, t) <==> contains(cfg.ExcludeChecks, t)
+//@   loop 2 invariant ignoreSet != nil && fresh(ignoreSet) && isetInv(ignoreSet) && ignoreSet.Initialized == (len(cfg.ExcludeChecks) > 0 || len(ignoreSet.Markers) > 0) && (ignoreSet.CodeIndex != nil ==> fresh(ignoreSet.CodeIndex))
+//@   loop 2 invariant forall t string :: contains(ignoreSet.moduleIgnores, t) <==> contains(cfg.ExcludeChecks, t)
+//@   loop 3 invariant ignoreSet != nil && fresh(ignoreSet) && isetInv(ignoreSet) && ignoreSet.Initialized == (len(cfg.ExcludeChecks) > 0 || len(ignoreSet.Markers) > 0) && (ignoreSet.CodeIndex != nil ==> fresh(ignoreSet.CodeIndex))
+//@   loop 3 invariant forall t string :: contains(ignoreSet.moduleIgnores, t) <==> contains(cfg.ExcludeChecks, t)
